@@ -184,6 +184,7 @@ pub fn run(run: &Run) {
         }
         run.count(&format!("file:{}", s.name));
     });
+    if !run.quick() { crate::lanes::miri(run, "cache", &[1], None); }
     run.add("object_cache_hits", totals.oh.load(Ordering::Relaxed)); run.add("object_cache_misses", totals.om.load(Ordering::Relaxed));
     run.add("stream_cache_hits", totals.sh.load(Ordering::Relaxed)); run.add("stream_cache_misses", totals.sm.load(Ordering::Relaxed));
     if totals.oh.load(Ordering::Relaxed) == 0 || totals.sh.load(Ordering::Relaxed) == 0 { run.inconclusive("no cache hit observed at all".into()); }
